@@ -733,7 +733,6 @@ func (c *Change) abortLanes(lanes []int, abortedLanes map[int]bool, seenTasks ma
 	var hasLive = make(map[int]bool)
 	var hasDead = make(map[int]bool)
 	var laneTasks []*Task
-NextChangeTask:
 	for _, tid := range c.taskIDs {
 		t := c.state.tasks[tid]
 
@@ -743,11 +742,13 @@ NextChangeTask:
 			live = true
 		}
 
+		inLanes := false
+	NextTaskLane:
 		for _, tlane := range t.Lanes() {
 			for _, lane := range lanes {
 				if tlane == lane {
-					laneTasks = append(laneTasks, t)
-					continue NextChangeTask
+					inLanes = true
+					continue NextTaskLane
 				}
 			}
 
@@ -759,6 +760,9 @@ NextChangeTask:
 			} else {
 				hasDead[tlane] = true
 			}
+		}
+		if inLanes {
+			laneTasks = append(laneTasks, t)
 		}
 	}
 
